@@ -8,6 +8,7 @@ import Imeta.Props.C10
 import Imeta.Props.C12
 import Imeta.Model.Png
 import Imeta.Props.C11
+import Imeta.Lemmas.XmpTotal
 namespace Imeta.C02
 open Imeta
 
@@ -52,5 +53,11 @@ consumed at least the 8 bytes of a box header): the "fuel" outcome is unreachabl
 theorem C02_isobmff_loops_bounded {h : Bytes → Bmff.M Unit} (hp : ∀ t, Bmff.Pres (h t)) (hh : ∀ t, Bmff.NP (h t)) (oe : Bmff.OnErr)
     (s : Bmff.St) (hn : s.chain ≠ []) : Bmff.NPat (Bmff.innerLoop h oe (s.rest.length / 8 + 2)) s :=
   Bmff.innerLoop_total hp hh oe _ s hn (by omega)
+
+
+/-- XMP: ParseXmp of the model ends for every input with the fuel it is given (unread length + 8): the look-ahead loops
+give up after at most 4 resp. 13 windows, every other loop (root search, tags, attributes, array items) consumes at least
+one byte per round -/
+theorem C02_xmp_terminates (b : Bytes) : ¬ Xmp.isFuel (Xmp.parseXmp b).1 := Xmp.parseXmp_total b
 
 end Imeta.C02
